@@ -467,6 +467,47 @@ def rule_window_fresh(ctx):
     return r
 
 
+def rule_cascade_foreign_guard(ctx):
+    """pop_edges and Drop of the node under destruction are user code that has just run in this pass.  They can read the
+    node's own links *now* - later than any reader that reached the node through the data structure - under a guard of
+    their own that outlives the call (parked in a thread-local, leaked).  No stamp records such a load, so the same-pass
+    destruction of a child would have to be conditional on no such guard being alive on the thread (F18)."""
+    r = RuleResult("CW-CASCADE-FOREIGN-GUARD", ["C02"],
+                   "the same-pass destruction of a child is gated by a test that no guard other than the collection's own is "
+                   "alive on the thread")
+    prog = ctx.prog
+    b = prog.body(DGN)
+    r.functions.add(DGN)
+    n = 0
+    seen = set()
+    for p in ctx.paths(DGN):
+        rec = [(i, e) for i, e in enumerate(p.events) if e.kind == "call" and e.target == DGN]
+        for (i, e) in rec:
+            if e.bb in seen:
+                continue
+            seen.add(e.bb)
+            n += 1
+            gated = False
+            for q in p.events[:i]:
+                if q.kind != "cond":
+                    continue
+                for x in subterms(q.term):
+                    if x[0] == "call" and norm(x[1]) == "std::cell::Cell::get" and \
+                            ("guard_count" in show(x[2][0]) or any(y[0] == "tlsval" for y in subterms(x[2][0]))):
+                        gated = True
+                    if x[0] == "call" and (x[1] or "").startswith("ebr_impl::internal::Local::") and \
+                            prog.bodies.get(x[1]) is not None and prog.bodies[x[1]].locals[0]["ty"] == "bool":
+                        gated = True
+            r.instance("recursive disposal of a child is gated by the live-guard count", gated)
+            if not gated:
+                r.violate(DGN, "ungated-recursion", "a child whose count hits zero is destructed in the same pass without testing "
+                          "whether a guard other than the collection's own is alive on the thread: pop_edges / Drop of the "
+                          "parent have just run and may have loaded a Snapshot of that child from the parent's own link under a "
+                          "guard they kept (parked, leaked); no stamp records such a load", e.loc())
+    r.require(n, 1, "recursive disposal sites")
+    return r
+
+
 def rule_upgrade_trace(ctx):
     """A Snapshot handed out through a weak pointer did not come through a link of an owner, so no link stamp and no
     owner's decrement stamp says that somebody may be looking at the object *now*.  If the check that grants it leaves no
